@@ -159,7 +159,14 @@ func RunOn(eng interpreter.Engine, unlock, lock []byte, flags interp.Flags, c Tx
 
 // RunModelOn is RunModel on an engine the caller owns (and may have used before).
 func RunModelOn(eng interpreter.Engine, m ref.Tx, idx int, lock []byte, amount uint64, flags interp.Flags, dbg interpreter.Debugger) (out Outcome) {
-	tx := ref.ToLib(m)
+	// the transaction object is built field by field in five cases of eight; in the others it is a
+	// Clone(), a clone of a clone, or parsed from the extended serialisation (chosen by the shape
+	// of the case, so that a replay takes the same way)
+	via := 0
+	if s := len(lock) + len(m.In) + int(flags) + int(m.LockTime%5); s%8 >= 5 {
+		via = s%8 - 4
+	}
+	tx, _ := ref.ToLibViaSalt(m, via)
 	prev := &bt.Output{Satoshis: amount, LockingScript: bscript.NewFromBytes(ref.Canary(lock))}
 	defer func() {
 		if out.Damage = ref.CanaryDamage(tx); out.Damage == "" && prev.LockingScript != nil && ref.CanaryDamaged(*prev.LockingScript) {
